@@ -17,7 +17,8 @@ const WORLD_DIMS: &[&str] = &["rand", "stdout", "stderr", "merged", "stdin", "cw
 
 fn pick_program(ctx: &Ctx, rng: &mut Rng) -> programs::Picked {
     match rng.below(10) {
-        0..=3 => programs::pick_w1(ctx, rng),
+        0..=2 => programs::pick_w1(ctx, rng),
+        3 => programs::pick_w5(rng),
         4..=5 => programs::pick_w4(ctx, rng),
         6..=8 => crate::w2::pick(rng, &crate::w2::GenOpts::default()),
         _ => crate::w3::pick(rng),
@@ -66,7 +67,7 @@ impl Property for C02 {
                 0..=6 => faults::write_fault(rng, 1, w1.max(1)),
                 // stderr faults need a diagnostic: w2 is 0 for succeeding programs,
                 // so combine with a stdout fault below
-                7..=10 => faults::write_fault(rng, 2, w2.max(4)),
+                7..=10 => faults::write_fault(rng, 2, w2.max(12)),
                 11..=12 => faults::read_fault(rng, nr.max(1)),
                 13 => faults::open_fault(rng),
                 14 => faults::cwd_fault(rng),
